@@ -61,6 +61,7 @@ package npm
 
 //@ func (*VersionRange).Contains
 //@   requires wfRange(nr)
+//@   loop 1 invariant forall g int :: 0 <= g && g <= rangeindex ==> (exists i int :: 0 <= i && i < len(nr.constraintGroups[g]) && !nr.constraintGroups[g][i].matches(version))
 //@   ensures or-of-and: result == (exists g int :: 0 <= g && g < len(nr.constraintGroups) && (forall i int :: 0 <= i && i < len(nr.constraintGroups[g]) ==> nr.constraintGroups[g][i].matches(version)))   [C02 C20]
 
 //@ lemma c20-equal [C20]: forall c *constraint, v1, v2 *Version :: trigger(c.matches(v1), c.matches(v2)) && c != nil && v1 != nil && v2 != nil && v1.Compare(v2) == 0 ==> c.matches(v1) == c.matches(v2)
@@ -105,3 +106,7 @@ package npm
 //@ func parseHyphenRange
 //@   ensures pair: result1 == nil ==> len(strings.Split(rangeStr, " - ")) == 2 && len(result0) == 2 && result0[0].operator == ">=" && result0[0].version == strings.TrimSpace(strings.Split(rangeStr, " - ")[0]) && result0[1].operator == "<=" && result0[1].version == strings.TrimSpace(strings.Split(rangeStr, " - ")[1])   [C05]
 //@   ensures valid-bounds: result1 == nil ==> theEcosystem().NewVersion(strings.TrimSpace(strings.Split(rangeStr, " - ")[0])).1 == nil && theEcosystem().NewVersion(strings.TrimSpace(strings.Split(rangeStr, " - ")[1])).1 == nil   [C05]
+
+// lifting to whole ranges (C20): an OR of AND groups treats versions that compare equal alike (the two sides are what
+// Contains returns for v1 and v2, by its or-of-and clause)
+//@ lemma c20-range-equal [C20] uses c20-equal: forall nr *VersionRange, v1, v2 *Version :: nr != nil && v1 != nil && v2 != nil && wfRange(nr) && v1.Compare(v2) == 0 ==> ((exists g int :: 0 <= g && g < len(nr.constraintGroups) && (forall i int :: 0 <= i && i < len(nr.constraintGroups[g]) ==> nr.constraintGroups[g][i].matches(v1))) == (exists g int :: 0 <= g && g < len(nr.constraintGroups) && (forall i int :: 0 <= i && i < len(nr.constraintGroups[g]) ==> nr.constraintGroups[g][i].matches(v2))))
